@@ -29,7 +29,7 @@ def tables(n=12, index="range", wide=False):
             "f": (i * 5 + 1) % 3,
         }
     )
-    m = max(5, n // 2 + 1)
+    m = min(10, max(5, n // 2 + 1))
     j = np.arange(m)
     df2 = pd.DataFrame(
         {
@@ -481,6 +481,24 @@ P("head_elemwise", lambda t: (t.df.u + 1).head(2, compute=False) if t.lazy else 
 P("head_filter_npall", lambda t: t.df[t.df.a > 1].head(3, npartitions=-1, compute=False) if t.lazy else t.df[t.df.a > 1].head(3), tags={"head"})
 P("head_bcast", lambda t: (t.df.u + t.df.u.sum()).head(2, compute=False) if t.lazy else (t.df.u + t.df.u.sum()).head(2), tags={"head"})
 P("tail_elemwise", lambda t: (t.df.u * 2).tail(2, compute=False) if t.lazy else (t.df.u * 2).tail(2), tags={"tail"})
+# --- hash shuffles (layout is a function of the key values only)
+P("shuffle_col", lambda t: t.df.shuffle("a") if t.lazy else t.df, order_free=True, tags={"shuffle"})
+P("shuffle_more", lambda t: t.df.shuffle("a", npartitions=7) if t.lazy else t.df, order_free=True, tags={"shuffle"})
+P("shuffle_staged", lambda t: t.df.shuffle("u", npartitions=5, max_branch=2) if t.lazy else t.df, order_free=True, tags={"shuffle"})
+P("shuffle_staged_same", lambda t: t.df.repartition(npartitions=5).shuffle("u", max_branch=2) if t.lazy else t.df, order_free=True, tags={"shuffle"})
+P("shuffle_index", lambda t: t.df.shuffle(on_index=True, npartitions=4) if t.lazy else t.df, order_free=True, tags={"shuffle"})
+P("shuffle_two_cols", lambda t: t.df.shuffle(["a", "f"], npartitions=3)[["a", "f", "u"]] if t.lazy else t.df[["a", "f", "u"]], order_free=True, tags={"shuffle"})
+P("shuffle_str", lambda t: t.df.shuffle("c", npartitions=4, ignore_index=True) if t.lazy else t.df, order_free=True, index_free=True, tags={"shuffle"})
+P("shuffle_then_gb", lambda t: (t.df.shuffle("a") if t.lazy else t.df).groupby("a").u.sum(), tags={"shuffle"})
+P("shuffle_disk", lambda t: t.df.shuffle("a", npartitions=3, shuffle_method="disk") if t.lazy else t.df, order_free=True, tags={"shuffle", "disk"})
+# --- fusion shapes: broadcast operands, nested single-partition groups, offsets
+P("fuse_bcast_chain", lambda t: t.df.u + ((t.df.u.sum() + 1) * 2 + t.df.f.max()))
+P("fuse_loc_plus", lambda t: t.df.loc[6:9].u + 1, needs_known=True, needs_range=True)
+P("fuse_loc_list_plus", lambda t: t.df.loc[9:9].u * 2, needs_known=True, needs_range=True)
+P("fuse_scalar_left", lambda t: t.df.u.sum() + t.df.u)
+P("fuse_two_reductions", lambda t: (t.df.u - t.df.u.min()) / (t.df.u.max() - t.df.u.min()))
+P("fuse_merge_single", lambda t: t.df.merge(t.df2.repartition(**t.kw(npartitions=1)) if t.lazy else t.df2, on="a")["w"] * 2 + 1, order_free=True, index_free=True)
+P("fuse_shared_blockwise", lambda t: (lambda d: t.dd.concat([d * 2 + 1, d.repartition(**t.kw(npartitions=2)) if t.lazy else d]))((t.df.u + 1) * 3))
 # --- mixed pipelines
 P("pipe_filter_gb_sort", lambda t: t.df[t.df.u > 3].groupby("a").u.sum().reset_index().sort_values("u").reset_index(drop=True), tags={"sort"})
 P("pipe_assign_merge_gb", lambda t: t.df.assign(z=t.df.u * 2).merge(t.df2[["a", "w"]], on="a").groupby("w").z.sum())
